@@ -434,15 +434,20 @@ class Exec:
             if closed and "server_connected" in hk:
                 t.judge("connected_then_exactly_one_disconnected", nd == 1, dict(f, disconnected=min(nd, 2)), case, "exactly one server_disconnected after server_connected", hk)
         # client
+        crash = None
+        if w.task is not None and w.task.done() and not w.task.cancelled() and w.task.exception() is not None:
+            crash = type(w.task.exception()).__name__  # handle_client itself raised
         cc, cd = names.count("client_connected"), names.count("client_disconnected")
         t.judge("client_connected_once_first", cc == 1 and names[0] == "client_connected", base, case, None, names[:3])
         t.judge("client_disconnected_at_most_once", cd <= 1, base, case, None, names)
         if closed:
-            t.judge("client_connected_once_then_disconnected_once", cc == 1 and cd == 1, dict(base, disconnected=min(cd, 2)), case, "client_connected once, client_disconnected once afterwards", names)
-        # concurrency bound
-        t.judge("open_to_same_address_le_5", st["max_open"] <= 5, dict(base, k=self.lay), case, "<= 5 sockets to %s:%d open at the same time" % ADDR, st["max_open"])
+            t.judge("client_connected_once_then_disconnected_once", cc == 1 and cd == 1, dict(base, disconnected=min(cd, 2), handle_client_raised=crash), case,
+                    "client_connected once, client_disconnected once afterwards", {"hooks": names, "handle_client raised": repr(w.task.exception()) if crash else None, "errors": w.errors[:1]})
+        # concurrency bound (a socket that was leaked earlier - see no_resources_left - still counts as open)
+        leaked = any(e.state == "open" and not e.w.closed for e in w.servers) if closed else None
+        t.judge("open_to_same_address_le_5", st["max_open"] <= 5, dict(base, k=self.lay, socket_leaked=leaked), case, "<= 5 sockets to %s:%d open at the same time" % ADDR, st["max_open"])
         # end of life
-        t.judge("handler_terminates", closed, dict(base, susp=self.susp), case, "connection handler finished after close-out",
+        t.judge("handler_terminates", closed, dict(base, susp=self.susp, handle_client_raised=crash), case, "connection handler finished after close-out",
                 {"pending": [repr(x)[:90] for x in w.loop.pending_tasks()][:4], "done": w.done})
         if closed:
             for i, e in enumerate(w.servers):
@@ -517,8 +522,8 @@ def bound_of(key):
 
 BOUNDS = {
     # layer -> deviation bound (a minor fault variant or an injection costs INJECT_COST deviations)
-    "quick": {"tcp": 2, "k2": 2, "k6": 1, "k7": 1},
-    "thorough": {"tcp": 3, "k2": 2, "k6": 2, "k7": 2},
+    "quick": {"tcp": 3, "k2": 2, "k6": 1, "k7": 1},
+    "thorough": {"tcp": 4, "k2": 3, "k6": 2, "k7": 2},
 }
 INJECT_COST = 2
 
@@ -528,10 +533,10 @@ def run(ctx):
     sp = []
     for s in specs(ctx.tier):
         b = bounds[s[0]]
-        if ctx.tier == "quick" and s[0] == "k6" and s[1] in ("none", "server_connect") and s[2] == "none" and s[3]:
-            b = 2
+        if s[0] == "k6" and s[1] in ("none", "server_connect", "server_connected") and s[2] == "none" and s[3]:
+            b += 1  # the semaphore hand-over gets one more deviation
         sp.append(s + (min(INJECT_COST, b), b))
-    ctx.bounds = {"layers": list(LAYERS), "suspended_hook": SUSPEND, "policies": POLICIES, "deviation_bound_per_layer": bounds,
+    ctx.bounds = {"layers": list(LAYERS), "suspended_hook": SUSPEND, "policies": POLICIES, "deviation_bound_per_layer": bounds, "k6_with_none_or_connect_hooks_held": "bound + 1",
                   "minor_variant_or_injection_costs": INJECT_COST, "specs": len(sp)}
     ctx.log("%d specs" % len(sp))
     mbfs.dfs_dev_many(sp, make_exec, bound_of, ctx.tally, log=ctx.log)
